@@ -1,7 +1,7 @@
 (* C18Theorems.v — the property theorems of C18 and nothing else.  Each is closed by
    `exact <lemma>` and followed by Print Assumptions (audited by ./check on every run). *)
 From V.lib Require Import Base.
-From V.c18 Require Import C18Model C18BitsProofs C18AscProofs C18AdtsProofs C18EntryModel C18EntryProofs C18TieProofs C18HistModel C18HistProofs.
+From V.c18 Require Import C18Model C18BitsProofs C18AscProofs C18AdtsProofs C18EntryModel C18EntryProofs C18TieProofs C18HistModel C18HistProofs C18DescModel C18DescProofs.
 
 (* DecodeAudioSpecificConfig inverts Encode on the whole supported domain: object types 2/5/29,
    all 16 channel configurations, every sampling / extension frequency in 0 .. 2^24-1 (the 13 table
@@ -326,3 +326,71 @@ Example C18_adts_stream_sat :
   forallb adts_item_ok [([0; 255; 255; 247; 71; 255], mkAdts 0 2 3 2 7 8184 2047); ([], mkAdts 0 1 0 7 7 0 0);
                         ([255], mkAdts 0 4 15 1 7 371 1000)] = true.
 Proof. reflexivity. Qed.
+
+(* ------------------------------------------------------------------ the esds descriptor layer, complete *)
+(* C18DescModel models mp4/descriptors.go completely (slice reader with accumulated error, size fields of
+   any width, optional ES fields, further descriptors of any tag kept as RawDescriptor,
+   DecoderConfigDescriptors nested to any depth, UnknownData recovery).  mp4.DecodeDescriptor inverts
+   EncodeSW on EVERY well-formed descriptor value: any nesting depth, any number of contained descriptors,
+   size fields of 1..255 bytes on every level, whatever follows in the reader *)
+Theorem C18_descriptor_roundtrip :
+  forall (d : desc) (rest : list N) (maxNr : Z),
+    desc_wf d = true -> (Z.of_N (desc_sizesize d) <= maxNr)%Z ->
+    decode_descriptor maxNr (encode_desc d ++ rest) = (Ok d, mkSl rest (desc_sizesize d) false).
+Proof. exact descriptor_roundtrip. Qed.
+Print Assumptions C18_descriptor_roundtrip.
+
+Example C18_descriptor_roundtrip_sat :
+  desc_wf (DDcd 3 64 21 6144 128000 96000
+             [DDsi 2 [18; 16]; DRaw 254 1 [1; 2; 3]; DDcd 0 1 2 3 4 5 [DSlc 1 2 [9]] [7]] []) = true.
+Proof. reflexivity. Qed.
+
+(* mp4.DecodeESDescriptor inverts ESDescriptor.EncodeSW on every well-formed ES descriptor: optional
+   dependsOn / URL / OCR fields, the DecoderConfigDescriptor, an SLConfigDescriptor or not, any further
+   descriptors (unknown tags are kept), at most one trailing unknown byte *)
+Theorem C18_es_descriptor_roundtrip :
+  forall (e : esd) (rest : list N),
+    es_wf e = true ->
+    decode_es_descriptor (encode_es e ++ rest) = (Ok e, mkSl rest (es_sizesize e) false).
+Proof. exact es_descriptor_roundtrip. Qed.
+Print Assumptions C18_es_descriptor_roundtrip.
+
+Example C18_es_descriptor_roundtrip_sat :
+  es_wf (mkEsd 3 1 224 7 [104; 116; 116; 112] 9
+           (DDcd 3 64 21 0 0 0 [DDsi 3 [43; 146; 8; 0]; DRaw 9 0 []] [])
+           [DSlc 3 2 []; DRaw 127 2 [1; 2]] [0]) = true.
+Proof. reflexivity. Qed.
+
+(* DecodeEsds on the body EsdsBox.Encode writes *)
+Theorem C18_esds_body_roundtrip :
+  forall (vf : N) (e : esd),
+    vf < 4294967296 -> es_wf e = true -> decode_esds_body (be32 vf ++ encode_es e) = Ok (vf, e).
+Proof. exact esds_body_roundtrip. Qed.
+Print Assumptions C18_esds_body_roundtrip.
+
+(* whatever well-formed shape the esds has (e.g. the 4-byte size fields other muxers write, extra
+   descriptors), the configuration it carries as DecoderSpecificInfo is read back:
+   esds -> ESDescriptor -> DecoderConfigDescriptor -> DecSpecificInfo -> DecodeAudioSpecificConfig *)
+Theorem C18_esds_config_roundtrip :
+  forall (vf : N) (e : esd) (a : asc),
+    vf < 4294967296 -> es_wf e = true -> canonical a = true -> es_carries e a = true ->
+    esds_asc (be32 vf ++ encode_es e) = Ok a.
+Proof. exact esds_config_roundtrip. Qed.
+Print Assumptions C18_esds_config_roundtrip.
+
+Example C18_esds_config_roundtrip_sat :
+  let a := mkAsc HEAACv1 2 24000%Z 48000%Z true false in
+  let e := mkEsd 3 1 0 0 [] 0 (DDcd 3 64 21 0 0 0 [DDsi 3 [43; 17; 136; 0]; DRaw 9 0 []] []) [DSlc 3 2 []] [] in
+  canonical a = true /\ es_wf e = true /\ es_carries e a = true.
+Proof. repeat split; vm_compute; reflexivity. Qed.
+
+(* the esds of the entry SetAACDescriptor builds is the encoding of one such value, and the general decoder
+   reads the configuration back from it (ties C18EntryModel's fixed-shape encoder to the general layer) *)
+Theorem C18_set_aac_esds_general :
+  forall (ot : N) (f : Z),
+    entry_freq_ok ot f = true ->
+    exists dc, encode_asc (set_aac_asc ot f) = Ok dc
+               /\ encode_es (aac_esd dc) = es_bytes dc
+               /\ esds_asc (be32 0 ++ es_bytes dc) = Ok (set_aac_asc ot f).
+Proof. exact set_aac_esds_general. Qed.
+Print Assumptions C18_set_aac_esds_general.
